@@ -93,5 +93,9 @@ Qed.
 Theorem glen_app_le a b : (glen (a ++ b) <= glen a + glen b)%Z.
 Proof. unfold glen, zlen. pose proof (clusters_app_le a b). lia. Qed.
 
-(* and joining never loses more than one cluster per seam: the other direction *)
+(* appending never reduces the number of clusters: the boundaries inside the first text are decided
+   by what precedes them, so they all remain; only its last cluster can grow *)
+Theorem glen_app_ge_left a b : (glen a <= glen (a ++ b))%Z.
+Proof. unfold glen, zlen. rewrite !clusters_length, nb_app. lia. Qed.
+
 End Subadd.
